@@ -63,18 +63,21 @@ def replay(spec):
         M = Model(species=["B", "A", "C"],
                   reactions=[(["A", "A"], ["B"], "massaction", {"k": k1}),
                              (["A", "B"], ["A"], "massaction", {"k": k2}, "fixed", [], ["C", "C"], {"delay": 1.0}),
-                             ([], ["A"], "massaction", {"k": k3})])
+                             ([], ["A"], "massaction", {"k": k3})]
+                  + ([] if spec.get("safe") else [(["B"], ["C"], "general", {"rate": "kf*A - kr*B"})]),
+                  parameters=[("kf", 0.2), ("kr", 0.9)])
         itf = (SafeModelCSimInterface if spec.get("safe") else ModelCSimInterface)(M)
         itf.py_prep_deterministic_simulation()
-        st = {"A": 2.5, "B": 1.5, "C": 0.5}
-        x = np.array([st[s] for s in M.get_species_list()])
-        dx = np.zeros(3)
-        itf.py_calculate_deterministic_derivative(x, dx, 0.0)
-        A, B = st["A"], st["B"]
-        want = {"A": -2 * k1 * A * A + k3, "B": k1 * A * A - k2 * A * B, "C": 2 * k2 * A * B}
-        for i, s in enumerate(M.get_species_list()):
-            if abs(dx[i] - want[s]) > 1e-9:
-                problems.append("d%s/dt = %r, expected %r" % (s, dx[i], want[s]))
+        for st in ({"A": 2.5, "B": 1.5, "C": 0.5}, {"A": 6.0, "B": 0.5, "C": 0.0}):       # net flux B->C backwards / forwards
+            x = np.array([st[s] for s in M.get_species_list()])
+            dx = np.zeros(3)
+            itf.py_calculate_deterministic_derivative(x, dx, 0.0)
+            A, B = st["A"], st["B"]
+            r4 = 0.0 if spec.get("safe") else 0.2 * A - 0.9 * B
+            want = {"A": -2 * k1 * A * A + k3, "B": k1 * A * A - k2 * A * B - r4, "C": 2 * k2 * A * B + r4}
+            for i, s in enumerate(M.get_species_list()):
+                if abs(dx[i] - want[s]) > 1e-9:
+                    problems.append("at %s: d%s/dt = %r, expected %r" % (st, s, dx[i], want[s]))
     elif kind == "arguments":
         import copy
         shared = {"k": 0.5}
